@@ -77,6 +77,21 @@ def norm_expected(x):
     return x
 
 
+def _erased(sd):
+    """the same surface document without any tag / metadata"""
+    d = S.SD(sd["k"], sd["v"], [[k, _erased(c)] for k, c in sd["ch"]])
+    return d
+
+
+def _plain_py(v):
+    """Config / Bunch -> plain dict, recursively (for the comparison with yaml.load)"""
+    if isinstance(v, dict):
+        return {k: _plain_py(c) for k, c in v.items()}
+    if isinstance(v, list):
+        return [_plain_py(c) for c in v]
+    return v
+
+
 def kstr(key):
     return key["t"] + ":" + (str(key["n"]) if key["t"] == "i" else key["s"])
 
@@ -96,7 +111,8 @@ def _init_worker(universe, rel=None, driver="builder"):
     _REL = rel
     import drive  # noqa  (imports awesomeyaml from /repo)
     drive.DRIVER = driver.split("+")[0]
-    drive.CONSTRUCT = "+construct" in driver
+    drive.CONSTRUCT = "+construct" in driver or "+evaluate" in driver
+    drive.EVALUATE = "+evaluate" in driver
 
 
 def _docs_outcome(docs, safes):
@@ -150,6 +166,19 @@ def _replay_one(beh):
     if drive.CONSTRUCT and beh.get("c", {}).get("status", "none") != "none":
         c = drive.construct_outcome([_UNIVERSE[i - 1] for i in idx], safes)
         wantc = beh["c"]
+        if drive.EVALUATE and wantc["status"] == "ok":
+            # the evaluated config vs. what TLC expects, and (single documents) vs. PyYAML on the tag-erased text
+            import evalfam
+            import yaml as pyyaml
+            import project as P
+            gotv = evalfam.compact_plain(c["data"]) if "data" in c else None
+            bad = gotv != beh.get("v")
+            if not bad and len(idx) == 1:
+                ref = pyyaml.load(S.render_doc(_erased(_UNIVERSE[idx[0] - 1])), Loader=pyyaml.Loader)
+                py = _plain_py(c["py"])
+                bad = not (py == ref and P.type_shape(py) == P.type_shape(ref))
+            if bad:
+                return {"h": idx, "s": safes, "want": want, "got": got, "wantv": beh.get("v"), "gotv": gotv, "status": c["status"]}
         gotpaths = sorted([kstr(k) for k in p] for p in c["paths"])
         if c["status"] != wantc["status"] or gotpaths != sorted(wantc["paths"]) or (c["status"] == "RequiredError" and c["calls"] != 0):
             return {"h": idx, "s": safes, "want": want, "got": got, "wantc": wantc, "gotc": c}
